@@ -30,9 +30,13 @@ def body_int(case, ctx):
     pos = i % n
     ctx.label("negative" if i < 0 else "nonneg", "np-int" if case["np"] else "py-int")
     ctx.nt(pos in bounds or pos + 1 in bounds or i < 0)
-    got = lib(lambda: x[np.int64(i) if case["np"] else i])
+    key = np.int64(i) if case["np"] else i
+    form = case.get("form", "plain")
+    ctx.label("form:" + form)
+    key = {"plain": key, "tuple1": (key,), "ell-i": (Ellipsis, key), "i-ell": (key, Ellipsis)}[form]
+    got = lib(lambda: x[key])
     if not got.ok:
-        raise Violation("int-index:unexpected-refusal", i=i, got=got.brief())
+        raise Violation("int-index:unexpected-refusal", i=i, got=got.brief(), form=form)
     v = got.value
     if isinstance(v, np.ndarray) and v.ndim != 0:
         raise Violation("int-index:result-kind", i=i, got=got.brief())
@@ -67,7 +71,7 @@ def body_mask(case, ctx):
         expect_array(lib(lambda: x[obj]), exp, "dense-mask", mask=m.tolist())
 
 
-def check_slice(a, x, sl, ctx=None):
+def check_slice(a, x, sl, ctx=None, form="plain"):
     s = slice(*sl)
     exp = a[s]
     n = len(a)
@@ -77,12 +81,16 @@ def check_slice(a, x, sl, ctx=None):
         ctx.label("oob-bound" if oob else "in-range", "neg-step" if step < 0 else "pos-step", "wide-step" if abs(step) > 1 else "unit-step",
                   "empty-result" if len(exp) == 0 else "nonempty")
         ctx.nt(oob or step != 1)
-    rl.expect_rl(lib(lambda: x[s]), exp, "slice", strict=sl[2] is not None and abs(sl[2]) != 1, slice=list(sl))
+    key = {"plain": s, "tuple1": (s,), "ell-i": (Ellipsis, s), "i-ell": (s, Ellipsis)}[form]
+    rl.expect_rl(lib(lambda: x[key]), exp, "slice", strict=sl[2] is not None and abs(sl[2]) != 1, slice=list(sl), form=form)
 
 
 def body_slice(case, ctx):
     a, x, bounds = base(case, ctx)
-    check_slice(a, x, case["s"], ctx)
+    ctx.label("form:" + case.get("form", "plain"))
+    check_slice(a, x, case["s"], ctx, case.get("form", "plain"))
+    for whole in (Ellipsis, ()):      # the whole-array forms give the array itself
+        rl.expect_rl(lib(lambda: x[whole]), a, "whole-array-form", strict=True)
     rl.expect_rl(lib(lambda: x), a, "source-after", strict=True)
 
 
@@ -126,6 +134,7 @@ def idx_case(draw, tier, kind):
     if kind == "int":
         case["i"] = draw(st.integers(0, 10**6))
         case["np"] = draw(st.booleans())
+        case["form"] = draw(st.sampled_from(["plain", "plain", "tuple1", "ell-i", "i-ell"]))
     elif kind == "list":
         case["idx"] = draw(st.lists(st.integers(0, 10**6), max_size=8))
         case["as"] = draw(st.sampled_from(["list", "int64", "int64", "int32", "intp"]))
@@ -134,6 +143,7 @@ def idx_case(draw, tier, kind):
         case["as"] = draw(st.sampled_from(["array", "list", "rl", "rl"]))
     elif kind == "slice":
         case["s"] = [draw(gen.bound(n)), draw(gen.bound(n)), draw(st.sampled_from([None, None, 1, -1, 2, -2, 3, -3, 5, -5, n, -n]))]
+        case["form"] = draw(st.sampled_from(["plain", "plain", "plain", "tuple1", "ell-i", "i-ell"]))
     else:
         case["w"] = draw(st.lists(st.tuples(st.integers(0, 10**6), st.integers(0, 10**6)).map(list), max_size=5))
     return case
